@@ -470,3 +470,67 @@ def run_union(fns, bs, nb, kicks, b_mask=None, timeout_ms=900000):
     out['witnesses'] = fam
     out['wall_s'] = round(time.time() - t0, 1)
     return out
+
+
+# --------------------------------------------------------------------------- translator validation
+def eval_concrete(fns, case):
+    """Push one concrete case (state, element, hash function, RNG script) through the encoding: find the unique
+    feasible return path and read the post-state from the model. case: dict like a counterexample (op, bs, nb, kicks,
+    slots, n, f, i1, hash, draws). -> dict(result, slots, n) or {'error': ...}"""
+    bs, nb, kicks, op = case['bs'], case['nb'], case['kicks'], case['op']
+    N = bs * nb
+    I = setup(fns, kicks)
+    slots = [z3.BitVec('s%d' % i, 64) for i in range(N)]
+    n = z3.BitVec('n', 64)
+    f = z3.BitVec('f', 64)
+    i1 = z3.BitVec('i1', 64)
+    I.shared['start'] = [f, i1, i1 ^ HASHF(f)]
+    world = {'locals': {'self': mk_filter(slots, n, bs, nb)}}
+    I.world = world
+    pins = [slots[i] == case['slots'][i] for i in range(N)] + [n == case['n'], f == case['f'], i1 == case['i1']]
+    for k, v in case['hash'].items():
+        pins.append(HASHF(bv(int(k))) == int(v))
+    fn = I.find(r'cuckoofilter::<impl.*>::%s$' % op)
+    res = I.run(fn, [Ref((('local', world, 'self'), [])), Opaque('elem')], z3.And(pins))
+    found = []
+    for pc, kind, val, snap in res:
+        used = vars_in(pc)
+        mine = [d for d in I.shared['draws'] if d[1].decl().name() in used]
+        if len(mine) > len(case['draws']):
+            continue
+        cons = []
+        ok = True
+        for d, c in zip(mine, case['draws']):
+            if d[0] != c[0]:
+                ok = False
+                break
+            cons.append(d[1] == (z3.BoolVal(bool(c[1])) if d[0] == 'bool' else bv(int(c[1]))))
+        if not ok:
+            continue
+        r, mdl = solve(pins + [pc] + cons, 60000)
+        if r == z3.sat:
+            found.append((kind, val, snap, mdl, len(mine)))
+    if len(found) != 1:
+        return {'error': 'expected exactly one feasible path, found %d' % len(found)}
+    kind, val, snap, mdl, used = found[0]
+    if kind == 'panic':
+        return {'result': 'panic:' + str(val)[:40]}
+    g = lambda e: mdl.eval(e, model_completion=True)
+    st = snap['self']
+    if op == 'insert':
+        okv = z3.is_true(g(val.ok))
+        res_s = ('ok_true' if z3.is_true(g(val.payload)) else 'ok_false') if okv else 'err'
+    else:
+        res_s = 'true' if z3.is_true(g(val)) else 'false'
+    return {'result': res_s, 'slots': [g(v).as_long() for v in st.fields[0].vals], 'n': g(st.fields[1]).as_long(), 'draws_used': used}
+
+
+def random_case(rng, op):
+    bs, nb = 2, 2
+    vals = [0, 0, 1, 2, 3, 5]
+    slots = [rng.choice(vals if rng.random() < 0.5 else [1, 2, 3, 5]) for _ in range(4)]
+    f = rng.choice([1, 2, 3, 5, 7])
+    hashm = {str(v): rng.randrange(2) for v in set(slots + [f, 1, 2, 3, 5, 7])}
+    draws = [['bool', rng.random() < 0.5]] + [['range', rng.randrange(2), 2] for _ in range(4)]
+    return {'op': op, 'bs': bs, 'nb': nb, 'kicks': 2, 'slots': slots, 'n': sum(1 for v in slots if v), 'f': f, 'i1': rng.randrange(2),
+            'g': 1, 'gi': 0, 'hash': hashm, 'draws': draws, 'tag': 'validation'}
